@@ -366,7 +366,7 @@ impl Prop for C12 {
 
     fn rule() -> String {
         "proptest: module trees of <= 25 nodes (depth <= 4) with names from a pool sharing prefixes (a, ab, a1, a[0], a[1], b, ba, ä), some of which shut themselves down during the run (they still get at_sim_end), inserted in a \
-         generated valid order (parents first, otherwise by generated priorities), per-module stage count 0..3, plus duplicate and orphan insertions \
+         generated valid order (parents first, otherwise by generated priorities), per-module stage count 0..3 (for some modules changed through the module handle after the node was created), optionally a module that panics in its delayed handler (run() then reports it and every other module is still torn down once), plus duplicate and orphan insertions \
          under catch_unwind at generated points. Oracle: at_sim_start log == for stage in 0..max: depth-first pre-order (siblings in creation order) \
          filtered by stage < stages(m); all starts before the first event; at_sim_end exactly once per module after the last event; documented \
          panics for duplicate / orphan and the builder stays usable; parent()/child()/path()/name()/Sim::nodes() agree with the declared tree. \
